@@ -205,6 +205,11 @@ class ChallengeField(Field):
         if isinstance(self.default, (str, bytes)):
             val = DigestValue.create(self.default, self.algorithm)
         elif isinstance(self.default, DigestValue):
+            if self.default.algorithm is not self.algorithm:
+                # same rule as for assigned values: it would not verify any more once reloaded
+                raise TypeError(
+                    "invalid default value: digest created with another hash algorithm"
+                )
             val = self.default
         else:
             raise TypeError("invalid default value: %r" % self.default)
